@@ -52,6 +52,9 @@ def run_cell(acc, rng, kind, cfgname, mode, assign, prop='C11', force_it=False):
     regs = {'sctlr': rng.getrandbits(32) & ~1, 'scr': rng.getrandbits(10) if cfg['have_security_ext'] else 0,
             'hcr': rng.getrandbits(28) if cfg['have_virt_ext'] else 0, 'hsctlr': rng.getrandbits(32) if cfg['have_virt_ext'] else 0}
     alignment = 0
+    flags = (0, 0, 0, 0)
+    if cfg['have_virt_ext']:
+        regs['hdcr'] = rng.getrandbits(12)
     for (reg, bit), v in assign:
         if reg == 'x':
             alignment = v
@@ -86,8 +89,14 @@ def run_cell(acc, rng, kind, cfgname, mode, assign, prop='C11', force_it=False):
             r.take_smc_exception(); M.take_smc()
         elif kind == 'dabort':
             ab = 'alignment' if alignment else 'permission'
-            r.take_data_abort_exception(DataAbortException(DAbort.ALIGNMENT if alignment else DAbort.PERMISSION, False))
-            M.take_data_abort(Abort(ab, 0, False))
+            # what an embedder's memory system / debug logic may report about the abort (mocks that say "no" in the stock class), and a stage-2 abort
+            ext, asy, dbg, s2 = (rng.random() < 0.3 for _ in range(4))
+            if mode == 'hyp' or not nonsecure:
+                s2 = False                      # stage 2 applies to the Non-secure PL1&0 regime only
+            flags = (ext, asy, dbg, s2)
+            r.is_external_abort, r.is_async_abort, r.debug_exception = (lambda v=ext: v), (lambda v=asy: v), (lambda v=dbg: v)
+            r.take_data_abort_exception(DataAbortException(DAbort.ALIGNMENT if alignment else DAbort.PERMISSION, s2))
+            M.take_data_abort(Abort(ab, 0, False, {'s2': s2}), external=ext, asynchronous=asy, debug=dbg)
         elif kind == 'irq':
             r.take_physical_irq_exception(); M.take_irq()
         elif kind == 'fiq':
@@ -110,7 +119,7 @@ def run_cell(acc, rng, kind, cfgname, mode, assign, prop='C11', force_it=False):
     acc.cls('entered:' + gen.MODE_NAME.get(post['cpsr'] & 31, '?'))
     if d or rb:
         from vf.props.e1prop import sig
-        case = {'kind': kind, 'cfgname': cfgname, 'state': {k: v for k, v in pre.items()}, 'alignment': alignment}
+        case = {'kind': kind, 'cfgname': cfgname, 'state': {k: v for k, v in pre.items()}, 'alignment': alignment, 'abort_flags': [int(x) for x in flags]}
         acc.violation('%s:%s:%s:%s' % (prop, 'entry-' + kind if prop != 'C11' else kind, cfgname, sig(d) if d else 'out-of-range'), case,
                       {'diffs(expected,observed)': e1.fmt_diff(d), 'out_of_range': rb, 'mode': mode})
 
@@ -204,8 +213,10 @@ def replay(case, bucket=None):
           'hyptrap': (r.take_hyp_trap_exception, M.take_hyp_trap), 'reset': (cpu.take_reset, M.take_reset)}
     if kind == 'dabort':
         al = case.get('alignment')
-        r.take_data_abort_exception(DataAbortException(DAbort.ALIGNMENT if al else DAbort.PERMISSION, False))
-        M.take_data_abort(Abort('alignment' if al else 'permission', 0, False))
+        ext, asy, dbg, s2 = (bool(x) for x in case.get('abort_flags', (0, 0, 0, 0)))
+        r.is_external_abort, r.is_async_abort, r.debug_exception = (lambda v=ext: v), (lambda v=asy: v), (lambda v=dbg: v)
+        r.take_data_abort_exception(DataAbortException(DAbort.ALIGNMENT if al else DAbort.PERMISSION, s2))
+        M.take_data_abort(Abort('alignment' if al else 'permission', 0, False, {'s2': s2}), external=ext, asynchronous=asy, debug=dbg)
     else:
         fn[kind][0]()
         fn[kind][1]()
